@@ -909,8 +909,11 @@ def _expand_when_stmt_element(
                         ref_uid = group_element.ref["elements"][0]["elements"][
                             0
                         ].lstrip("$")
-                    group_element.ref = _create_ref_ast_dict_helper(temp_ref_uid)
-                    group_start_elements[case_idx][group_idx].append(group_element)
+                    # The same element can be part of several and-groups after the
+                    # normalization, so we must not change it in place
+                    start_element = copy.deepcopy(group_element)
+                    start_element.ref = _create_ref_ast_dict_helper(temp_ref_uid)
+                    group_start_elements[case_idx][group_idx].append(start_element)
 
                     match_element.name = None
                     match_element.var_name = temp_ref_uid
